@@ -16,6 +16,12 @@ var exceptions = []Exception{
 	{Rule: "G-COMMIT-BOUND", Construct: "store raftLog.committed", Func: "(*raft.RawNode).Bootstrap",
 		Reason: "Bootstrap appends exactly len(ents) entries to the empty log immediately before committing them; the append's effect on lastIndex is a value fact outside the engine",
 		Props:  []string{"C06"}},
+	{Rule: "C07.T", Construct: "term argument of becomeFollower: $m.GetTerm()", Func: "raft.stepCandidate",
+		Reason: "the three MsgApp/MsgHeartbeat/MsgSnap arms of stepCandidate: Step's preamble leaves m.Term == 0 || m.Term == r.Term here; that these message types always carry the sender's (non-zero) term is the sender-side obligation C07.S plus the property's own premise that the network only delivers messages raft nodes sent",
+		Props:  []string{"C07"}},
+	{Rule: "C07.T", Construct: "term argument of becomeFollower: 1", Func: "(*raft.RawNode).Bootstrap",
+		Reason: "Bootstrap requires an empty Storage (LastIndex()==0 check above), i.e. a node that has never had a term; contract fact",
+		Props:  []string{"C07"}},
 	{Rule: "C19.M", Construct: "range over map local[nil:nil:nil][(phi+1)]", Func: "confchange.checkInvariants",
 		Reason: "the early return is an error whose *text* names the first offending id in map order; callers only test err != nil (Changer returns it, raft panics on it); no Ready content depends on the text",
 		Props:  []string{"C19"}},
